@@ -1862,15 +1862,16 @@ def identifier_char_rule(ctx, res, rule: str, modules, rest: bool = False, occur
         tfc = idx.need_class(TF)
 
         def reaches(nm: str, seen=None) -> bool:
-            seen = seen or set()
-            if nm in seen or nm not in tfc.methods:
+            """a method of the finder, or a function of its module, that (transitively) asks is_identifier_char"""
+            seen = seen if seen is not None else set()
+            m = tfc.methods.get(nm) or idx.functions.get(f"{tfc.unit.modname}.{nm}")
+            if nm in seen or m is None:
                 return False
             seen.add(nm)
-            m = tfc.methods[nm]
             for c in calls_in(m.node):
                 if call_name(c) == "is_identifier_char":
                     return True
-                if is_self_attr(c.func) and reaches(c.func.attr, seen):
+                if (is_self_attr(c.func) or isinstance(c.func, ast.Name)) and reaches(call_name(c), seen):
                     return True
             return False
         k = 0
